@@ -4,4 +4,4 @@
 From Coq Require Import Extraction ExtrOcamlBasic.
 From PV Require Import Print.Model Print.Decl.
 Extraction Language OCaml.
-Extraction "decl_model.ml" print_unit parse_unit norm_unit wf_unit print_fsig parse_fsig norm_fsig wf_fsig mkCtx.
+Extraction "decl_model.ml" print_unit parse_unit norm_unit wf_unit stable_unit print_fsig parse_fsig norm_fsig wf_fsig mkCtx.
